@@ -64,6 +64,28 @@ theorem M.tryCatch_err {x : M α} {h : Exc → M α} {c c1 : Conn} {ex : Exc} {e
     M.tryCatch x h c = ⟨(h ex c1).res, (h ex c1).conn, e1 ++ (h ex c1).eff⟩ := by
   rw [M.tryCatch_apply, hx]
 
+/-- `do y; raise ex` never returns -/
+theorem M.bind_throw_res {γ : Type} (y : M α) (ex : Exc) (c : Conn) :
+    ∃ ex' c' e', (y >>= fun _ => (M.throw ex : M γ)) c = ⟨.error ex', c', e'⟩ := by
+  rw [M.bind_apply]
+  rcases y c with ⟨r, c1, e1⟩
+  cases r with
+  | error e0 => exact ⟨e0, c1, e1, rfl⟩
+  | ok a => exact ⟨ex, c1, e1 ++ [], rfl⟩
+
+/-- `try: x except Exception as ex: y; raise` returns only when `x` returns, with `x`'s outcome -/
+theorem M.tryCatch_rethrow_ok {x : M α} {y : M β} {c c' : Conn} {a : α} {e : List Effect}
+    (h : M.tryCatch x (fun ex => y >>= fun _ => (M.throw ex : M α)) c = ⟨.ok a, c', e⟩) :
+    x c = ⟨.ok a, c', e⟩ := by
+  rcases hx : x c with ⟨r, c1, e1⟩
+  cases r with
+  | ok b => rw [M.tryCatch_ok hx] at h; exact h
+  | error ex =>
+    rw [M.tryCatch_err hx] at h
+    obtain ⟨ex', c2, e2, h2⟩ := M.bind_throw_res (γ := α) y ex c1
+    rw [h2] at h
+    cases h
+
 end eval
 
 /-! ### trace functions -/
